@@ -13,8 +13,9 @@
 //!   `<oracle> <real> <dump>`
 //!   oracle  `[(bytes, keccak256 bytes); ..]` for every byte string the proxy-slot pass may hash on the values of
 //!           this run (computed with the sha3 crate directly, on the values before and after StorageSlotHashes)
-//!   real    `(XR class layout errors)`    class 0 layout / 1 structured error / 2 panic / 3 allowance exceeded
-//!   dump    `(mk_xdump values lifted vars infs final)`, each stage `None` when it was not reached
+//!   real    `(XR class layout errors polls)`    class 0 layout / 1 structured error / 2 panic / 3 allowance exceeded;
+//!           polls = the number of `should_stop` calls the watchdog saw
+//!   dump    `(mk_xdump true values lifted vars infs final)`, each stage `None` when it was not reached
 //!
 //! `pipeline display`: one value tree per line in the `(Tag [attrs] kids...)` syntax; prints
 //!   `(<tree as Coq term>, "<format!("{}", value)>")`  (the sort key of the storage / symbolic-memory hooks).
@@ -87,12 +88,13 @@ fn watchdog(inp: &VmInput) -> Rc<CountingWatchdog> {
     Rc::new(wd)
 }
 
-fn xr(class: u8, layout: Option<&StorageLayout>, errors: Option<&error::Errors>) -> String {
+fn xr(class: u8, layout: Option<&StorageLayout>, errors: Option<&error::Errors>, polls: u64) -> String {
     format!(
-        "(XR {} {} {})",
+        "(XR {} {} {} {})",
         class,
         layout.map_or("[]".to_string(), layout_term),
-        errors.map_or("[]".to_string(), error_terms)
+        errors.map_or("[]".to_string(), error_terms),
+        polls
     )
 }
 
@@ -116,11 +118,12 @@ fn real(inp: &VmInput) -> String {
         Ok(ex.layout().clone())
     });
     storage_layout_extractor::verif::random_ids();
+    let polls = wd.polls.get();
     match r {
-        Err(_) => xr(2, None, None),
-        Ok(_) if wd.over_budget.get() => xr(3, None, None),
-        Ok(Ok(l)) => xr(0, Some(&l), None),
-        Ok(Err(es)) => xr(1, None, Some(&es)),
+        Err(_) => xr(2, None, None, polls),
+        Ok(_) if wd.over_budget.get() => xr(3, None, None, polls),
+        Ok(Ok(l)) => xr(0, Some(&l), None, polls),
+        Ok(Err(es)) => xr(1, None, Some(&es), polls),
     }
 }
 
@@ -179,17 +182,18 @@ fn staged(inp: &VmInput, hashes: &mut StorageSlotHashes) -> (String, String) {
         Ok(st.engine.unify()?)
     });
     storage_layout_extractor::verif::random_ids();
+    let polls = wd.polls.get();
     let fin = match r {
-        Err(_) => xr(2, None, None),
-        Ok(_) if wd.over_budget.get() => xr(3, None, None),
-        Ok(Ok(l)) => xr(0, Some(&l), None),
-        Ok(Err(es)) => xr(1, None, Some(&es)),
+        Err(_) => xr(2, None, None, polls),
+        Ok(_) if wd.over_budget.get() => xr(3, None, None, polls),
+        Ok(Ok(l)) => xr(0, Some(&l), None, polls),
+        Ok(Err(es)) => xr(1, None, Some(&es), polls),
     };
     let oracle: Vec<String> =
         pre.into_iter().unique().map(|b| format!("({},{})", coq_bytes(&b), keccak(&b))).collect();
     (
         format!("[{}]", oracle.join(";")),
-        format!("(mk_xdump {} {} {} {} {})", opt(values_t), opt(lifted_t), opt(vars_t), opt(infs_t), fin),
+        format!("(mk_xdump true {} {} {} {} {})", opt(values_t), opt(lifted_t), opt(vars_t), opt(infs_t), fin),
     )
 }
 
